@@ -128,7 +128,10 @@ SPEC = {
     "theorems": ["C03_layout_independent", "C03_layout_independent_trees", "C03_reserved_words", "C03_inclusiveness", "C03_grammar_refuted"],
     "more": [{"module": "C03c", "target": "props/C03c.vo",
               "theorems": ["C03c_precedence", "C03c_precedence_parse", "C03c_grammar_trees",
-                           "C03c_grammar_trees_parse", "C03c_grammar_trees_value"]}],
+                           "C03c_grammar_trees_parse", "C03c_grammar_trees_value"]},
+             {"module": "Lrespace", "target": "props/Lrespace.vo",
+              "theorems": ["L_respace", "L_respace_parse", "L_respace_accept",
+                           "L_respace_no_sep_condition_refuted"]}],
     "correspond": correspond,
     "statement": "(a) for ANY LR tables, inputs with the same (type, lexeme) token sequence have equal trees up to "
                  "layout (or errors of the same class); (b) reserved words are operators only as whole lexemes, "
